@@ -345,6 +345,10 @@ type Config struct {
 	Property  string // "C08" or "C13": which oracle's findings this run reports
 	Stateless Bounds // bounds of the range / round-robin enumeration (Plan has no memory there)
 	Families  []Family
+	// Wide: first-plan enumerations (all three strategies, no chains) over more members than the chains can afford:
+	// size clauses such as "range sizes differ by at most one" need >= 4 subscribers of one topic to go wrong
+	Wide     []Bounds
+	WidePool []string
 	Pools     map[string][][]string // strategy -> id pools
 	Topics    []string
 	Budget    time.Duration
@@ -389,6 +393,11 @@ type Search struct {
 func DefaultConfig(property string) Config {
 	cfg := Config{Property: property, Pools: IDPools(), Topics: []string{"t0", "t1", "t2"}}
 	cfg.Budget = ev.Deadline(45*time.Second, 9*time.Minute)
+	cfg.WidePool = []string{"a", "b", "c", "d", "e", "f"}
+	cfg.Wide = []Bounds{{MaxMembers: 6, MaxTopics: 1, MaxParts: 14, R: 3}, {MaxMembers: 5, MaxTopics: 2, MaxParts: 4, R: 3}}
+	if ev.Tier() == "thorough" {
+		cfg.Wide = []Bounds{{MaxMembers: 6, MaxTopics: 1, MaxParts: 20, R: 10}, {MaxMembers: 6, MaxTopics: 2, MaxParts: 5, R: 5}}
+	}
 	if ev.Tier() == "thorough" {
 		cfg.Stateless = Bounds{MaxMembers: 3, MaxTopics: 3, MaxParts: 4, R: 10}
 		cfg.Families = []Family{
@@ -492,6 +501,31 @@ func Run(property string) int {
 		}
 		exhaustive = exhaustive && done
 	}
+	// wide first plans (range, round-robin and sticky on fresh members)
+	wideInfo := []interface{}{}
+	for wi, wb := range cfg.Wide {
+		s.prefix, s.b = fmt.Sprintf("wide%d", wi), wb
+		for _, strat := range []string{Range, RoundRobin, Sticky} {
+			var front []item
+			pool := cfg.WidePool
+			if len(pool) > wb.MaxMembers {
+				pool = pool[:wb.MaxMembers]
+			}
+			for _, st := range InitialStates(strat, wb, pool, cfg.Topics) {
+				if k := st.Key(true); s.see(strat+"/"+k, 0) {
+					front = append(front, item{key: k, path: "input"})
+				}
+			}
+			_, done, err := s.level(strat, front, 0, end, [][]string{pool})
+			if err != nil {
+				c.EngineError(err.Error())
+				return c.Finish()
+			}
+			exhaustive = exhaustive && done
+			wideInfo = append(wideInfo, map[string]interface{}{"family": s.prefix, "strategy": strat, "bounds": boundsMap(wb, false), "initial_states": len(front), "completed": done})
+		}
+	}
+	s.visited = map[[16]byte]uint8{}
 	statelessWall := time.Since(s.start).Seconds()
 
 	// sticky: chains, one search per family
@@ -602,6 +636,7 @@ func Run(property string) int {
 		"range_hash_orders": HashOrders(cfg.Pools[Range], cfg.Topics),
 	})
 	c.Set("sticky_families", famInfo)
+	c.Set("wide_first_plan_families", wideInfo)
 	c.Set("stateless_wall_s", statelessWall)
 	c.Set("cases_by_event_class", s.byClass)
 	c.Set("cases_by_strategy", s.byStrat)
@@ -648,7 +683,7 @@ func poolOf(cfg Config, key string) []string {
 			return p
 		}
 	}
-	return nil
+	return cfg.WidePool
 }
 
 func (s *Search) poolFor(key string, pools [][]string) []string {
